@@ -26,6 +26,7 @@ use vh::*;
 const STUN_TIMEOUT_MS: u64 = 300;
 const NOM_TIMEOUT_MS: u64 = 400;
 const MAGIC: u32 = 0x2112_A442;
+static NEXT_PORT: std::sync::atomic::AtomicU16 = std::sync::atomic::AtomicU16::new(0);
 
 // ------------------------------------------------------------------ STUN wire helpers (own code)
 type HmacSha1 = hmac::Hmac<sha1::Sha1>;
@@ -89,12 +90,13 @@ fn walk(b: &[u8]) -> Option<Vec<(u16, usize, usize)>> {
 }
 
 #[derive(Clone, Debug, Default, PartialEq)]
-struct Facts { b0: u8, ty: u16, wf: bool, tx: u128, uc: bool, has_user: bool, user_ok: bool, has_mi: bool, mi_ok: bool, prio: u32 }
+struct Facts { b0: u8, ty: u16, wf: bool, tx: u128, uc: bool, has_user: bool, user_ok: bool, has_mi: bool, mi_ok: bool, prio: u32, ufrag: u8 }
 
 fn tx_num(tx: &[u8]) -> u128 { tx.iter().fold(0u128, |a, b| (a << 8) | *b as u128) }
 
 /// what a verifying agent would establish about this datagram (own implementation)
 fn facts(b: &[u8], want_user: &str, local_pwd: &str) -> Facts {
+    let local_ufrag = want_user.split(':').next().unwrap_or("");
     let mut f = Facts { b0: b.first().copied().unwrap_or(0), ..Default::default() };
     f.ty = if b.len() >= 2 { u16::from_be_bytes([b[0], b[1]]) } else { (f.b0 as u16) << 8 };
     if b.len() >= 20 { f.tx = tx_num(&b[8..20]); }
@@ -103,7 +105,14 @@ fn facts(b: &[u8], want_user: &str, local_pwd: &str) -> Facts {
         for (t, o, n) in attrs {
             let val = &b[o + 4..o + 4 + n];
             match t {
-                0x0006 if !f.has_user => { f.has_user = true; f.user_ok = val == want_user.as_bytes(); }
+                0x0006 if !f.has_user => {
+                    f.has_user = true;
+                    f.user_ok = val == want_user.as_bytes();
+                    // what the shared-UDP demux reads: text before the first ':' of a UTF-8 USERNAME
+                    f.ufrag = match std::str::from_utf8(val).ok().and_then(|t| t.split_once(':')) {
+                        Some((peer, _)) => if peer == local_ufrag { 1 } else { 2 },
+                        None => 0 };
+                }
                 0x0025 => f.uc = true,
                 0x0024 if n >= 4 => f.prio = u32::from_be_bytes([val[0], val[1], val[2], val[3]]),
                 0x0008 if !f.has_mi => {
@@ -158,7 +167,7 @@ enum HOp {
 }
 
 #[derive(Clone, Debug)]
-struct Spec { role: IceRole, latching: bool, ops: Vec<HOp>, kind: String }
+struct Spec { role: IceRole, latching: bool, mux: bool, ops: Vec<HOp>, kind: String }
 
 #[derive(Clone, Debug, PartialEq)]
 struct CandObs { addr: SocketAddr, typ: u8, prio: u32, tcp: bool }
@@ -196,8 +205,8 @@ fn obs_term(o: &Obs) -> String {
         list_term(&o.sends.iter().map(|(d, t)| format!("({}, {})", addr_term(d), t)).collect::<Vec<_>>()))
 }
 fn pkt_term(f: &Facts) -> String {
-    format!("(mkPkt {} {} {} {} {} {} {} {} {} {})", f.b0, f.ty, bool_term(f.wf), f.tx, bool_term(f.uc), bool_term(f.has_user),
-        bool_term(f.user_ok), bool_term(f.has_mi), bool_term(f.mi_ok), f.prio)
+    format!("(mkPkt {} {} {} {} {} {} {} {} {} {} {})", f.b0, f.ty, bool_term(f.wf), f.tx, bool_term(f.uc), bool_term(f.has_user),
+        bool_term(f.user_ok), bool_term(f.has_mi), bool_term(f.mi_ok), f.prio, f.ufrag)
 }
 fn role_term(r: IceRole) -> &'static str { if r == IceRole::Controlling { "IceRole_Controlling" } else { "IceRole_Controlled" } }
 
@@ -247,20 +256,34 @@ async fn run_case(spec: &Spec, seed: u64) -> Ran {
     let mut ran = Ran { terms: vec![], obs: vec![], descs: vec![], local: "0.0.0.0:0".parse().unwrap(), fail: None, known: None,
         nontrivial: false, harness_err: None, stats: vec![] };
     // ---- the agent under test
-    let mut cfg = RtcConfiguration::default();
-    cfg.bind_ip = Some("127.0.0.1".into());
-    cfg.enable_latching = spec.latching;
-    cfg.stun_timeout = Duration::from_millis(STUN_TIMEOUT_MS);
-    cfg.nomination_timeout = Duration::from_millis(NOM_TIMEOUT_MS);
-    let (t, runner) = IceTransportBuilder::new(cfg).role(spec.role).build();
-    let runner = tokio::spawn(runner);
-    let t0 = Instant::now();
-    while t.gather_state() != IceGathererState::Complete || t.local_candidates().is_empty() {
-        if t0.elapsed() > Duration::from_secs(5) { ran.harness_err = Some("gathering did not complete".into()); t.stop(); runner.abort(); return ran; }
-        tokio::time::sleep(Duration::from_millis(1)).await;
+    let mut made = None;
+    for _attempt in 0..4 {
+        let mut cfg = RtcConfiguration::default();
+        cfg.bind_ip = Some("127.0.0.1".into());
+        cfg.enable_latching = spec.latching;
+        cfg.stun_timeout = Duration::from_millis(STUN_TIMEOUT_MS);
+        cfg.nomination_timeout = Duration::from_millis(NOM_TIMEOUT_MS);
+        if spec.mux {
+            // shared-UDP mux socket kind: one process-wide socket per port, demux by ufrag / source address
+            let port = loop {
+                let p = 20000 + NEXT_PORT.fetch_add(1, std::sync::atomic::Ordering::Relaxed) % 10000;
+                if std::net::UdpSocket::bind(("127.0.0.1", p)).is_ok() { break p; }
+            };
+            cfg.ice_udp_mux = true;
+            cfg.ice_udp_mux_port = Some(port);
+        }
+        let (t, runner) = IceTransportBuilder::new(cfg).role(spec.role).build();
+        let runner = tokio::spawn(runner);
+        let t0 = Instant::now();
+        while t.gather_state() != IceGathererState::Complete {
+            if t0.elapsed() > Duration::from_secs(5) { break; }
+            tokio::time::sleep(Duration::from_millis(1)).await;
+        }
+        if t.gather_state() == IceGathererState::Complete && t.local_candidates().len() == 1 { made = Some((t, runner)); break; }
+        t.stop(); runner.abort();
     }
+    let Some((t, runner)) = made else { ran.harness_err = Some("could not create an agent with exactly one local candidate".into()); return ran; };
     let locals = t.local_candidates();
-    if locals.len() != 1 { ran.harness_err = Some(format!("expected one local candidate, got {}", locals.len())); t.stop(); runner.abort(); return ran; }
     let lc = locals[0].clone();
     ran.local = lc.address;
     let lpar = t.local_parameters();
@@ -635,44 +658,44 @@ fn req(sock: usize, user: UserKind, mi: MiKind, uc: bool) -> HOp {
 fn corpus() -> Vec<Spec> {
     let mut v = vec![];
     // F18: controlled agent in Checking, one request from an unknown address with USE-CANDIDATE and no credentials
-    v.push(Spec { role: IceRole::Controlled, latching: false, kind: "corpus".into(),
+    v.push(Spec { role: IceRole::Controlled, latching: false, mux: false, kind: "corpus".into(),
         ops: vec![HOp::Start, req(2, UserKind::None, MiKind::None, true)] });
     // same, but the agent already has a legitimate peer candidate and an outstanding check towards it
-    v.push(Spec { role: IceRole::Controlled, latching: false, kind: "corpus".into(),
+    v.push(Spec { role: IceRole::Controlled, latching: false, mux: false, kind: "corpus".into(),
         ops: vec![HOp::AddRemote { sock: 0, prio: HOST_PRIO, typ: 0 }, HOp::Start, HOp::Capture { sock: 0, round: 1, nom: false },
                   req(2, UserKind::None, MiKind::None, true)] });
     // the legitimate flow: authenticated USE-CANDIDATE from the signalled peer
-    v.push(Spec { role: IceRole::Controlled, latching: false, kind: "corpus".into(),
+    v.push(Spec { role: IceRole::Controlled, latching: false, mux: false, kind: "corpus".into(),
         ops: vec![HOp::AddRemote { sock: 0, prio: HOST_PRIO, typ: 0 }, HOp::Start, req(0, UserKind::Right, MiKind::Right, true)] });
     // nominated by the peer, then a stranger without credentials sends USE-CANDIDATE: prflx priority is lower -> pair kept, candidate learned
-    v.push(Spec { role: IceRole::Controlled, latching: false, kind: "corpus".into(),
+    v.push(Spec { role: IceRole::Controlled, latching: false, mux: false, kind: "corpus".into(),
         ops: vec![HOp::AddRemote { sock: 0, prio: HOST_PRIO, typ: 0 }, HOp::Start, req(0, UserKind::Right, MiKind::Right, true),
                   req(2, UserKind::None, MiKind::None, true)] });
     // nominated on a low-priority (relay) peer candidate, then the stranger: priority upgrade to the stranger
-    v.push(Spec { role: IceRole::Controlled, latching: false, kind: "corpus".into(),
+    v.push(Spec { role: IceRole::Controlled, latching: false, mux: false, kind: "corpus".into(),
         ops: vec![HOp::AddRemote { sock: 0, prio: 16777215, typ: 3 }, HOp::Start, req(0, UserKind::Right, MiKind::Right, true),
                   req(2, UserKind::WrongBoth, MiKind::WrongKey, true)] });
     // latching retarget by a request without credentials from the same port on another ip
-    v.push(Spec { role: IceRole::Controlling, latching: true, kind: "corpus".into(),
+    v.push(Spec { role: IceRole::Controlling, latching: true, mux: false, kind: "corpus".into(),
         ops: vec![HOp::AddRemote { sock: 0, prio: HOST_PRIO, typ: 0 }, HOp::SelectPair { sock: 0 }, req(3, UserKind::None, MiKind::None, false)] });
     // responses: random id, then the live id of the agent's own check answered from a third socket
-    v.push(Spec { role: IceRole::Controlled, latching: false, kind: "corpus".into(),
+    v.push(Spec { role: IceRole::Controlled, latching: false, mux: false, kind: "corpus".into(),
         ops: vec![HOp::AddRemote { sock: 0, prio: HOST_PRIO, typ: 0 }, HOp::Start, HOp::Capture { sock: 0, round: 1, nom: false },
                   HOp::Resp { sock: 2, succ: true, tx: TxRef::Random, method: 1, with_mi: false },
                   HOp::Resp { sock: 2, succ: true, tx: TxRef::Live(0), method: 1, with_mi: false }, HOp::AwaitRound { round: 1 }] });
     // error response consumes the transaction: a later success with the same id is not honoured
-    v.push(Spec { role: IceRole::Controlled, latching: false, kind: "corpus".into(),
+    v.push(Spec { role: IceRole::Controlled, latching: false, mux: false, kind: "corpus".into(),
         ops: vec![HOp::AddRemote { sock: 0, prio: HOST_PRIO, typ: 0 }, HOp::Start, HOp::Capture { sock: 0, round: 1, nom: false },
                   HOp::Resp { sock: 0, succ: false, tx: TxRef::Live(0), method: 1, with_mi: false },
                   HOp::Resp { sock: 0, succ: true, tx: TxRef::Stale(0), method: 1, with_mi: false }, HOp::AwaitRound { round: 1 }] });
     // controlling: check answered, nomination answered
-    v.push(Spec { role: IceRole::Controlling, latching: false, kind: "corpus".into(),
+    v.push(Spec { role: IceRole::Controlling, latching: false, mux: false, kind: "corpus".into(),
         ops: vec![HOp::AddRemote { sock: 0, prio: HOST_PRIO, typ: 0 }, HOp::Start, HOp::Capture { sock: 0, round: 1, nom: false },
                   HOp::Resp { sock: 0, succ: true, tx: TxRef::Live(0), method: 1, with_mi: true }, HOp::AwaitRound { round: 1 },
                   HOp::Capture { sock: 0, round: 1, nom: true }, HOp::Resp { sock: 0, succ: true, tx: TxRef::Live(1), method: 1, with_mi: true },
                   HOp::AwaitNom { round: 1 }] });
     // controlling: check answered, nomination never answered -> nomination failed
-    v.push(Spec { role: IceRole::Controlling, latching: false, kind: "corpus".into(),
+    v.push(Spec { role: IceRole::Controlling, latching: false, mux: false, kind: "corpus".into(),
         ops: vec![HOp::AddRemote { sock: 0, prio: HOST_PRIO, typ: 0 }, HOp::Start, HOp::Capture { sock: 0, round: 1, nom: false },
                   HOp::Resp { sock: 0, succ: true, tx: TxRef::Live(0), method: 1, with_mi: true }, HOp::AwaitRound { round: 1 },
                   HOp::Capture { sock: 0, round: 1, nom: true }, HOp::Resp { sock: 2, succ: true, tx: TxRef::Random, method: 1, with_mi: true },
@@ -710,7 +733,7 @@ fn matrix() -> Vec<Spec> {
                     for user in USERS3 { for mi in MIS3 { for uc in [false, true] {
                         let mut ops = prelude(pre, HOST_PRIO, HOST_PRIO - 256);
                         ops.push(req(src, user, mi, uc));
-                        v.push(Spec { role, latching, ops, kind: "matrix".into() });
+                        v.push(Spec { role, latching, mux: false, ops, kind: "matrix".into() });
                     } } }
                 }
             }
@@ -732,9 +755,37 @@ fn upgrade_family() -> Vec<Spec> {
                     ops.push(req(1, u, m, true));
                     ops.push(req(2, u, m, true)); // and the stranger (learned prflx priority 1862270975)
                     ops.push(req(0, UserKind::Right, MiKind::Right, true)); // the original peer again
-                    v.push(Spec { role: IceRole::Controlled, latching, ops, kind: "upgrade".into() });
+                    v.push(Spec { role: IceRole::Controlled, latching, mux: false, ops, kind: "upgrade".into() });
                 }
             }
+        }
+    }
+    v
+}
+
+/// the shared-UDP mux socket kind: what the demux lets through (USERNAME naming the session / recorded sources)
+fn mux_family() -> Vec<Spec> {
+    let mut v = vec![];
+    let users = [UserKind::None, UserKind::WrongBoth, UserKind::WrongRemote, UserKind::Reversed, UserKind::NoColon, UserKind::Right];
+    for role in [IceRole::Controlling, IceRole::Controlled] {
+        for pre in [Pre::New, Pre::CheckingWithPeers, Pre::ConnectedSelected] {
+            for src in [2usize, 0] {
+                for user in users { for mi in MIS3 { for uc in [false, true] {
+                    let mut ops = prelude(pre, HOST_PRIO, HOST_PRIO - 256);
+                    ops.push(req(src, user, mi, uc));
+                    // a second datagram from the same source: now routed by the recorded address (if the first was)
+                    ops.push(req(src, UserKind::None, MiKind::None, uc));
+                    v.push(Spec { role, latching: false, mux: true, ops, kind: "mux".into() });
+                } } }
+            }
+        }
+        // responses to the agent's own check reach it only from a recorded source
+        for map_first in [false, true] {
+            let mut ops = vec![HOp::AddRemote { sock: 0, prio: HOST_PRIO, typ: 0 }, HOp::Start, HOp::Capture { sock: 0, round: 1, nom: false }];
+            if map_first { ops.push(req(0, UserKind::WrongRemote, MiKind::None, false)); }
+            ops.push(HOp::Resp { sock: 0, succ: true, tx: TxRef::Live(0), method: 1, with_mi: false });
+            ops.push(HOp::AwaitRound { round: 1 });
+            v.push(Spec { role, latching: false, mux: true, ops, kind: "mux".into() });
         }
     }
     v
@@ -782,7 +833,7 @@ fn random_seq(r: &mut Rng) -> Spec {
             else if k < 96 { HOp::SelectPair { sock: r.below(2) as usize } }
             else { HOp::AddRemote { sock: 2, prio: *r.pick(&[HOST_PRIO, 1862270975u32, 5]), typ: *r.pick(&[0u8, 1, 2, 3]) } });
     }
-    Spec { role, latching, ops, kind: "random".into() }
+    Spec { role, latching, mux: r.chance(1, 6), ops, kind: "random".into() }
 }
 
 /// scenarios around the agent's own transactions (live / stale / random ids, success / error, wrong method)
@@ -825,7 +876,7 @@ fn response_scenarios(r: &mut Rng, n: usize) -> Vec<Spec> {
             ops.push(HOp::Resp { sock: 0, succ: true, tx: TxRef::Stale(0), method: 1, with_mi: true });
             ops.push(HOp::AwaitRound { round: 2 });
         }
-        v.push(Spec { role, latching: false, ops, kind: "responses".into() });
+        v.push(Spec { role, latching: false, mux: false, ops, kind: "responses".into() });
     }
     v
 }
@@ -839,6 +890,7 @@ async fn main() {
     let mut specs: Vec<Spec> = corpus();
     specs.extend(matrix());
     specs.extend(upgrade_family());
+    specs.extend(mux_family());
     specs.extend(response_scenarios(&mut r, if thorough { 240 } else { 60 }));
     for _ in 0..(if thorough { 12000 } else { 2200 }) { specs.push(random_seq(&mut r)); }
     if let Ok(n) = std::env::var("C06_LIMIT") { specs.truncate(n.parse().unwrap_or(usize::MAX)); }
@@ -862,13 +914,13 @@ async fn main() {
                 // the single local host candidate
                 let a = ran.local; cand_term(&a, &a, 0, HOST_PRIO, false) });
             let term = if ran.harness_err.is_some() { "-".to_string() } else {
-                format!("mkCase {} {} {} {} {}", role_term(spec.role), bool_term(spec.latching), lterm,
+                format!("mkCase {} {} {} {} {} {}", role_term(spec.role), bool_term(spec.latching), bool_term(spec.mux), lterm,
                     list_term(&ran.terms), list_term(&ran.obs.iter().map(obs_term).collect::<Vec<_>>())) };
             // distinctness: the shape of the case (addresses and random ids abstracted away)
-            let key = format!("{:?}|{}|{:?}", spec.role, spec.latching, spec.ops);
+            let key = format!("{:?}|{}|{}|{:?}", spec.role, spec.latching, spec.mux, spec.ops);
             out.push(Case {
                 term,
-                desc: json!({"role": format!("{:?}", spec.role), "latching": spec.latching, "local": ran.local.to_string(), "steps": ran.descs}),
+                desc: json!({"role": format!("{:?}", spec.role), "latching": spec.latching, "shared_udp_mux": spec.mux, "local": ran.local.to_string(), "steps": ran.descs}),
                 oracle_fail: fail,
                 known: ran.known.clone(),
                 nontrivial: ran.nontrivial,
